@@ -63,6 +63,18 @@
 (*    and handed to the client as the answer of its NEXT request - TLC      *)
 (*    refutes ReplyOfThatVeryRequest.                                       *)
 (*                                                                         *)
+(*  - the text KEY COMMANDS (SET, GETSET, INCR, ..., GET, STRLEN, ...): every *)
+(*    command of the text dispatch tables has a class, read off what it      *)
+(*    does on a LEADER.  WriteOps change engine state there ("wset": a lock  *)
+(*    with update-when-locked under the key's own LockId that replaces the   *)
+(*    value; the lock requests and unlock are write class too), ReadOps      *)
+(*    ("rget") only look.  A non-leader's text table answers a read-class    *)
+(*    command from its replica and must refuse or forward a write-class one. *)
+(*    MisfiledOps names the mutation "a write command is registered with the *)
+(*    local read handler of the non-leader's table" (seed C10e: GETSET): TLC *)
+(*    refutes AckedWriteReachedLeader - the client holds an answer for a     *)
+(*    write no deciding engine ever saw.                                     *)
+(*                                                                         *)
 (* The lock engine is abstracted to ONE exclusive key with a FIFO wait     *)
 (* queue and re-entrant depth <= 2.  Request classes: lock0 (no wait),     *)
 (* lockw (waits), lockr (no wait, Rcount > 0: the holder's re-lock is      *)
@@ -80,9 +92,18 @@ EXTENDS Integers, Sequences, FiniteSets, TLC, Json
 CONSTANTS BinConns, TextConns,  \* client connections on node N
           DirConns,             \* client connections on the leader L
           Lids, Ops, MaxReq, MaxFaults, MaxExpire,
-          RollbackLatestOnly, FirstTextLocal, FastPathOr, ResetAfterRelay, AllowDemote, RecordHist
+          RollbackLatestOnly, FirstTextLocal, FastPathOr, ResetAfterRelay, MisfiledOps, AllowDemote, RecordHist
 
 NConns == BinConns \cup TextConns
+
+\* classes of the request kinds: does the request change engine state on a leader?
+WriteOps == {"lock0", "lockw", "lockr", "lockc", "lockcw", "unlock", "wset"}
+ReadOps  == {"rget"}
+ValueOps == {"wset", "rget"}
+KeyLid   == 99          \* the LockId of a text key command is the key itself
+VALUE    == "VALUE"     \* the answer of a read: the value (and nothing decided)
+\* a text command that the non-leader's table hands to its LOCAL read handler
+LocalRead(c, op) == c \in TextConns /\ (op \in ReadOps \/ op \in MisfiledOps)
 Conns  == NConns \cup DirConns
 
 VARIABLES role,     \* N's own role: "follower" | "leader"
@@ -140,13 +161,19 @@ Decide(e, rid) ==
     LET r == req[rid]
         one(res) == [e |-> e, out |-> <<Fr(rid, res)>>, q |-> FALSE]
     IN
-    IF r.op = "unlock"
+    IF r.op = "rget" THEN one(VALUE)                 \* a read looks and decides nothing
+    ELSE IF r.op = "wset"
+    THEN \* a write key command: lock-or-update under the key's own LockId, the value is replaced (val = the request that wrote it)
+         IF e.holder = 0 THEN [e |-> [e EXCEPT !.holder = KeyLid, !.depth = 1, !.hrid = rid, !.val = rid], out |-> <<Fr(rid, SUCCED)>>, q |-> FALSE]
+         ELSE IF e.holder = KeyLid THEN [e |-> [e EXCEPT !.hrid = rid, !.val = rid], out |-> <<Fr(rid, LOCKED)>>, q |-> FALSE]
+         ELSE one(TIMEOUT)
+    ELSE IF r.op = "unlock"
     THEN IF e.holder = r.lid
          THEN IF e.depth > 1
               THEN [e |-> [e EXCEPT !.depth = @ - 1], out |-> <<Fr(rid, SUCCED)>>, q |-> FALSE]
               ELSE IF e.wq = <<>>
               THEN [e |-> [e EXCEPT !.holder = 0, !.depth = 0, !.hrid = 0], out |-> <<Fr(rid, SUCCED)>>, q |-> FALSE]
-              ELSE [e |-> [holder |-> req[Head(e.wq)].lid, depth |-> 1, hrid |-> Head(e.wq), wq |-> Tail(e.wq)],
+              ELSE [e |-> [holder |-> req[Head(e.wq)].lid, depth |-> 1, hrid |-> Head(e.wq), wq |-> Tail(e.wq), val |-> e.val],
                     out |-> <<Fr(rid, SUCCED), Fr(Head(e.wq), SUCCED)>>, q |-> FALSE]
          ELSE one(UNLOCKERR)
     ELSE IF e.holder = 0
@@ -185,7 +212,7 @@ NewDec(out, rid, q) ==
 Init ==
     /\ role \in {"follower"} \cup (IF AllowDemote THEN {"leader"} ELSE {})
     /\ known = TRUE
-    /\ eng = [n \in {"L", "N"} |-> [holder |-> 0, depth |-> 0, hrid |-> 0, wq |-> <<>>]]
+    /\ eng = [n \in {"L", "N"} |-> [holder |-> 0, depth |-> 0, hrid |-> 0, wq |-> <<>>, val |-> 0]]
     /\ req = <<>>
     /\ inb = [c \in Conns |-> <<>>]
     /\ wrapped = [c \in NConns |-> role = "follower"]
@@ -214,7 +241,8 @@ Init ==
 ClientSend(c, op, lid) ==
     /\ NReq < MaxReq
     /\ c \notin BinConns => \A rid \in Rids : req[rid].conn = c => Answered(rid)
-    /\ req' = Append(req, [conn |-> c, op |-> op, lid |-> lid])
+    /\ op \in ValueOps => lid = CHOOSE x \in Lids : \A y \in Lids : x <= y         \* (one send per value command: its LockId is the key)
+    /\ req' = Append(req, [conn |-> c, op |-> op, lid |-> IF op \in ValueOps THEN KeyLid ELSE lid])
     /\ inb' = [inb EXCEPT ![c] = Append(@, NReq + 1)]
     /\ dec' = Append(dec, "none")
     /\ via' = Append(via, [c |-> c, g |-> 0])
@@ -252,21 +280,28 @@ NodeProcess(c) ==
          /\ first' = [first EXCEPT ![c] = FALSE]
          /\ inb' = [inb EXCEPT ![c] = Tail(@)]
          /\ \/ \* deviation: first command of a text connection run by the inner handlers -> refused by N's own engine
-               /\ FirstTextLocal /\ c \in TextConns /\ first[c] /\ wrapped[c]
+               /\ FirstTextLocal /\ c \in TextConns /\ first[c] /\ wrapped[c] /\ req[rid].op \notin ReadOps
                /\ LocalReply(c, rid, STATEERR)
                /\ UNCHANGED <<up, gen, upq, latest, twait, tblk, lw, via, downq, dec, eng, fpbad>>
+            \/ \* a text command the table hands to the local read handler: answered from the replica, nothing forwarded
+               /\ LocalRead(c, req[rid].op) /\ (req[rid].op \in ReadOps \/ ~(FirstTextLocal /\ first[c] /\ wrapped[c]))
+               /\ LocalReply(c, rid, VALUE)
+               /\ UNCHANGED <<up, gen, upq, latest, twait, tblk, lw, via, downq, dec, eng, fpbad>>
             \/ \* concurrent-check fast path answered from the replica
+               /\ ~LocalRead(c, req[rid].op)
                /\ FastGuard(req[rid].op) /\ eng["N"].holder # 0
                /\ LocalReply(c, rid, TIMEOUT)
                /\ fpbad' = (fpbad \/ (eng["N"].holder = eng["L"].holder /\ eng["N"].depth = eng["L"].depth 
                                       /\ Decide(eng["L"], rid).out # <<>> /\ Decide(eng["L"], rid).out[1].res = SUCCED))
                /\ UNCHANGED <<up, gen, upq, latest, twait, tblk, lw, via, downq, dec, eng>>
             \/ \* no upstream and no reachable leader: refused
+               /\ ~LocalRead(c, req[rid].op)
                /\ ~(FastGuard(req[rid].op) /\ eng["N"].holder # 0)
                /\ up[c] = "none" /\ ~known
                /\ LocalReply(c, rid, STATEERR)
                /\ UNCHANGED <<up, gen, upq, latest, twait, tblk, lw, via, downq, dec, eng, fpbad>>
             \/ \* forwarded (the upstream is opened first when there is none)
+               /\ ~LocalRead(c, req[rid].op)
                /\ ~(FastGuard(req[rid].op) /\ eng["N"].holder # 0)
                /\ up[c] = "up" \/ known
                /\ up' = [up EXCEPT ![c] = "up"]
@@ -381,8 +416,8 @@ Demote ==
 \* N's replica catches up with the leader's stream (a replicated hold keeps no client command: hrid = 0)
 Replicate ==
     /\ role = "follower" /\ known
-    /\ <<eng["N"].holder, eng["N"].depth>> # <<eng["L"].holder, eng["L"].depth>>
-    /\ eng' = [eng EXCEPT !["N"].holder = eng["L"].holder, !["N"].depth = eng["L"].depth, !["N"].hrid = 0]
+    /\ <<eng["N"].holder, eng["N"].depth, eng["N"].val>> # <<eng["L"].holder, eng["L"].depth, eng["L"].val>>
+    /\ eng' = [eng EXCEPT !["N"].holder = eng["L"].holder, !["N"].depth = eng["L"].depth, !["N"].hrid = 0, !["N"].val = eng["L"].val]
     /\ UNCHANGED <<role, known, req, inb, wrapped, first, up, gen, upq, downq, latest, twait, tblk, lw, rep, dec, via, orphan, fpbad, expired, noted, nlost, nx, nf, hist>>
 
 \* a queued request times out at the engine that queued it
@@ -408,8 +443,8 @@ LeaderExpire(n) ==
            nte == IF hr # 0 THEN <<[rid |-> hr, res |-> EXPRIED, nt |-> TRUE]>> ELSE <<>>
            wk  == IF e.wq # <<>> THEN <<Fr(Head(e.wq), SUCCED)>> ELSE <<>>
            out == nte \o wk
-       IN /\ eng' = [eng EXCEPT ![n] = IF e.wq = <<>> THEN [holder |-> 0, depth |-> 0, hrid |-> 0, wq |-> <<>>]
-                                        ELSE [holder |-> req[Head(e.wq)].lid, depth |-> 1, hrid |-> Head(e.wq), wq |-> Tail(e.wq)]]
+       IN /\ eng' = [eng EXCEPT ![n] = IF e.wq = <<>> THEN [holder |-> 0, depth |-> 0, hrid |-> 0, wq |-> <<>>, val |-> 0]
+                                        ELSE [holder |-> req[Head(e.wq)].lid, depth |-> 1, hrid |-> Head(e.wq), wq |-> Tail(e.wq), val |-> 0]]
           /\ rep' = RouteRep(out, "own")
           /\ downq' = RouteDown(out)
           /\ dec' = NewDec(out, 0, FALSE)
@@ -444,16 +479,23 @@ OneReplyRightConn ==
 \* a relayed reply is the deciding engine's reply; nothing the node makes up is a success
 RelayedIsLeaderReply == \A x \in AllReplies : (R(x).src \in {"relay", "own"} /\ R(x).kind = "reply") => dec[R(x).rid] = R(x).res
 NoFabricatedSuccess  == \A x \in AllReplies : /\ R(x).res = SUCCED => dec[R(x).rid] = SUCCED
-                                              /\ R(x).src = "local" => R(x).res \in {STATEERR, ERROR, TIMEOUT}
+                                              /\ R(x).src = "local" => (R(x).res \in {STATEERR, ERROR, TIMEOUT} \/ (R(x).res = VALUE /\ req[R(x).rid].op \in ReadOps))
+\* an answer to a write-class request that is not a refusal (nor the follower's documented fast path) means that a deciding
+\* engine decided that request: the write reached the leader (refuted when a write command sits with the local read handler)
+AckedWriteReachedLeader ==
+    \A x \in AllReplies : (req[R(x).rid].op \in WriteOps /\ R(x).kind = "reply" /\ ~(R(x).src = "local" /\ R(x).res \in {STATEERR, ERROR, TIMEOUT}))
+                              => dec[R(x).rid] \notin {"none", "queued"}
+\* a read-class request decides nothing: the engines are what they were (its decision, if any, is the bare VALUE)
+ReadsDecideNothing == \A rid \in Rids : req[rid].op \in ReadOps => dec[rid] \in {"none", VALUE}
 \* what is taken as THE answer of a request is the deciding engine's reply frame for THAT VERY request - never a frame of
 \* another request, never an unsolicited notice (refuted when lockRequestId is not reset: ResetAfterRelay = FALSE)
 ReplyOfThatVeryRequest == \A x \in AllReplies : (R(x).src \in {"relay", "own"} /\ R(x).kind = "reply") => (R(x).of = R(x).rid /\ ~R(x).ofn)
 \* an expiry notice reaches a client only as a notice: with the id of a request of this client whose hold did expire, after
-\* the SUCCED answer of that request, result EXPRIED, and never on a text connection
+\* the SUCCED (or, for an update of the held key, LOCKED_ERROR) answer of that request, result EXPRIED, and never on a text connection
 NoticeIsOfExpiredGrant ==
     \A x \in AllReplies : R(x).kind = "notice" =>
         /\ R(x).rid \in expired /\ R(x).res = EXPRIED /\ R(x).ofn /\ x.c \notin TextConns
-        /\ \E j \in 1..(x.i - 1) : rep[x.c][j].rid = R(x).rid /\ rep[x.c][j].kind = "reply" /\ rep[x.c][j].res = SUCCED
+        /\ \E j \in 1..(x.i - 1) : rep[x.c][j].rid = R(x).rid /\ rep[x.c][j].kind = "reply" /\ rep[x.c][j].res \in {SUCCED, LOCKED}
 \* a notice that was put on an intact route is relayed to a binary client (not dropped, not re-tagged) and never shows up on a
 \* text connection in any form
 NoticesRelayedToBinary ==
